@@ -106,6 +106,10 @@ def vkey(v):
         return ("tup",) + tuple(vkey(x) for x in v.items)
     if isinstance(v, Sym):
         return ("sym", v.tag)
+    if isinstance(v, Future):
+        return ("future", (v.node.get("fn") or {}).get("res") or (v.node.get("fn") or {}).get("def"), tuple(vkey(a) for a in v.args))
+    if isinstance(v, Ref):
+        return vkey(v.get())
     return v
 
 
@@ -132,6 +136,38 @@ def wrap(v, ty):
     if bits is not None and isinstance(v, int) and not isinstance(v, bool) and not ty.startswith("i"):
         return v & ((1 << bits) - 1)
     return v
+
+
+class Future:
+    """The value of calling an `async fn` of the crate: nothing has happened yet. The call (hooks, inlining) is performed when
+    the future is awaited -- or handed to block_on -- so that effects are ordered as in the program
+    (`helper(check_first, read_u16(reader))` reads only when the helper awaits its argument)."""
+    __slots__ = ("node", "args", "env")
+
+    def __init__(self, node, args, env):
+        self.node, self.args, self.env = node, args, env
+
+    def __repr__(self):
+        return "Future(%s)" % ((self.node.get("fn") or {}).get("res") or (self.node.get("fn") or {}).get("def"))
+
+
+class Ref:
+    """A reference to a place inside a mutable aggregate (a field of an Adt, an element of a Tup): what a `ref mut` / default
+    binding-mode binding denotes. Reading a variable bound to a Ref yields the current content of the place; assigning
+    through it (`*x = v`, `*x += 1`) updates the aggregate, so that state reached through `&mut self` is observable afterwards."""
+    __slots__ = ("obj", "key")
+
+    def __init__(self, obj, key):
+        self.obj, self.key = obj, key
+
+    def get(self):
+        return self.obj.fields[self.key] if isinstance(self.obj, Adt) else self.obj.items[self.key]
+
+    def set(self, v):
+        if isinstance(self.obj, Adt):
+            self.obj.fields[self.key] = v
+        else:
+            self.obj.items[self.key] = v
 
 
 class PE:
@@ -171,6 +207,10 @@ class PE:
         finally:
             self.depth -= 1
 
+    def _tymap(self):
+        st = getattr(self, "_tystack", [])
+        return st[-1] if st else {}
+
     def _closure_body(self, fid):
         from norm import norm
         c = getattr(self.F, "_pe_closures", None)
@@ -181,18 +221,23 @@ class PE:
         return c[fid]
 
     # ---- patterns
-    def match(self, p, v, env):
-        """True/False if decidable (binding into env), raises Undecided otherwise."""
+    def match(self, p, v, env, place=None):
+        """True/False if decidable (binding into env), raises Undecided otherwise. `place` = (aggregate, key) when the value
+        matched is the content of a field / element, so that by-reference bindings can alias it."""
         k = p.get("k")
         if k == "Wild":
             return True
         if k == "Binding":
             if p.get("sub") and not self.match(p["sub"], v, env):
                 return False
-            env[p["var"]["id"]] = v
+            mode = p.get("mode") or ""
+            if place is not None and mode.startswith("BindingMode(Yes(") and ", Mut)" in mode:
+                env[p["var"]["id"]] = Ref(place[0], place[1])
+            else:
+                env[p["var"]["id"]] = v        # aggregates are shared objects already
             return True
         if k in ("Deref", "DerefPattern"):
-            return self.match(p["sub"], v, env)
+            return self.match(p["sub"], v, env, place)
         if k == "Const" and isinstance(v, Lin):
             pv = p.get("val")
             if isinstance(pv, dict) and "char" in pv:
@@ -254,10 +299,14 @@ class PE:
             if v.variant != p["variant"]:
                 return False
             for s in p["subs"]:
-                fv = v.fields.get(s["field"], v.fields.get(str(s["idx"])))
+                key = s["field"] if s["field"] in v.fields else str(s["idx"])
+                fv = v.fields.get(key)
                 if fv is None:
                     fv = Sym("field:%s" % s["field"])
-                if not self.match(s["pat"], fv, env):
+                    if not self.match(s["pat"], fv, env):
+                        return False
+                    continue
+                if not self.match(s["pat"], fv, env, (v, key)):
                     return False
             return True
         if k == "Leaf":
@@ -265,7 +314,12 @@ class PE:
                 if isinstance(v, Tup):
                     fv = v.items[int(s["idx"])]
                 elif isinstance(v, Adt):
-                    fv = v.fields.get(s["field"], v.fields.get(str(s["idx"]), Sym("field:%s" % s["field"])))
+                    key = s["field"] if s["field"] in v.fields else str(s["idx"])
+                    if key in v.fields:
+                        if not self.match(s["pat"], v.fields[key], env, (v, key)):
+                            return False
+                        continue
+                    fv = Sym("field:%s" % s["field"])
                 elif isinstance(v, Sym):
                     fv = Sym(("field", v.tag, s["field"]))
                 else:
@@ -342,6 +396,8 @@ class PE:
                     cache[d] = PE(self.F).call_fn(d, [])
                 return cache[d]
             return Sym(("const", d))
+        if isinstance(v, list):
+            return Tup(list(v))        # a constant array of integers, decoded by the exporter
         return v
 
     def x_Zst(self, e, env):
@@ -353,7 +409,8 @@ class PE:
     def x_Var(self, e, env):
         vid = e["var"]["id"]
         if vid in env:
-            return env[vid]
+            v = env[vid]
+            return v.get() if isinstance(v, Ref) else v
         return Sym(("var", e["var"]["name"]), e.get("ty"))
 
     x_Upvar = x_Var
@@ -384,7 +441,13 @@ class PE:
         raise Undecided("? on %r" % (v,))
 
     def x_Await(self, e, env):
-        return self.ev(e["e"], env)
+        v = self.ev(e["e"], env)
+        return self.force(v)
+
+    def force(self, v):
+        if isinstance(v, Future):
+            return self._call_now(v.node, v.args, v.env)
+        return v
 
     def x_Cast(self, e, env):
         v = self.ev(e["e"], env)
@@ -412,6 +475,10 @@ class PE:
 
     def x_Repeat(self, e, env):
         n = e.get("n")
+        if not isinstance(n, int):
+            consts = self._tymap().get("#const") or []
+            if len(consts) == 1:
+                n = consts[0]          # `[0u8; N]` inside `f::<T, 2>`: the single const generic of this instantiation
         if isinstance(n, int) and n <= 64:
             v = self.ev(e["e"], env)
             return Tup([v] * n)
@@ -484,6 +551,10 @@ class PE:
             b = int(b) if op not in ("Eq", "Ne") else b
         if op in ("Eq", "Ne"):
             if isinstance(a, Sym) or isinstance(b, Sym):
+                if getattr(self, "symbolic_eq", False) and isinstance(a, Sym) and isinstance(b, Sym):
+                    # the rule wants to see the comparison itself (an overloaded `==` is the operands' own eq)
+                    self.events.append(("eq", op, vkey(a), vkey(b)))
+                    return Sym(("eq" if op == "Eq" else "ne", vkey(a), vkey(b)))
                 r = self.decide(("cmp", op, vkey(a), vkey(b)), e)
                 return r
             r = (vkey(a) == vkey(b))
@@ -642,7 +713,9 @@ class PE:
 
     def x_For(self, e, env):
         it = self.ev(e["iter"], env)
+        by_mut = False
         if isinstance(it, Adt) and it.adt == "seq-iter":
+            by_mut = bool(it.fields.get("mut"))
             it = it.fields["0"]
         if isinstance(it, Adt) and it.adt.startswith("core::ops::range::Range") and it.variant in ("Range", "RangeInclusive"):
             lo, hi = it.fields.get("start"), it.fields.get("end")
@@ -650,9 +723,14 @@ class PE:
                 it = Tup(list(range(lo, hi + (1 if it.variant == "RangeInclusive" else 0))))
         if not isinstance(it, Tup):
             raise Undecided("for over %r" % (it,))
-        for x in it.items:
+        for i_, x in enumerate(list(it.items)):
             e2 = env
-            if not self.match(e["pat"], x, e2):
+            if by_mut and e["pat"].get("k") == "Binding" and not e["pat"].get("sub"):
+                env[e["pat"]["var"]["id"]] = Ref(it, i_)       # `for slot in arr.iter_mut()`: slot aliases the element
+                ok_ = True
+            else:
+                ok_ = self.match(e["pat"], x, e2)
+            if not ok_:
                 raise Undecided("for pattern")
             try:
                 self.ev(e["body"], env)
@@ -684,6 +762,9 @@ class PE:
         base = strip(l)
         if base.get("k") in ("Var", "Upvar"):
             cur = env.get(base["var"]["id"])
+            if isinstance(cur, Ref):
+                cur.set(v)          # assignment through a by-reference binding
+                return
             if l.get("k") == "Deref" and isinstance(cur, Sym) and isinstance(cur.tag, tuple) and cur.tag and cur.tag[0] == "field":
                 # assignment through a `&mut place` parameter: record which place is written
                 self.events.append(("store", cur.tag, v))
@@ -728,6 +809,18 @@ class PE:
             if isinstance(fv, tuple) and fv and fv[0] in ("closure", "fn"):
                 return self.apply(fv, args)
             raise Undecided("indirect call through %r" % (fv,))
+        callee0 = self.F.fns.get(res)
+        if callee0 is not None and callee0.get("is_async") and callee0.get("kind") in ("Fn", "AssocFn"):
+            return Future(e, args, env)          # an async fn of the crate: performed when awaited
+        return self._call_now(e, args, env)
+
+    def _call_now(self, e, args, env):
+        fn = e["fn"]
+        d = fn.get("def", "") or ""
+        res = fn.get("res") or d
+        name = fn.get("name")
+        if name == "block_on":
+            args = [self.force(a) for a in args]
         if self.call_hook is not None:
             r = self.call_hook(d, res, args, e, env)
             if r is not None:
@@ -737,8 +830,32 @@ class PE:
         if r is not NotImplemented:
             return r
         callee = self.F.fns.get(res)
+        if callee is None and fn.get("res_kind") == "Unresolved" and fn.get("krate") == self.F.data["crate"]:
+            # a trait method called on a type parameter inside a generic helper: dispatch on the instantiation we are in
+            conc = self._tymap().get((fn.get("self_ty") or "").lstrip("&").replace("mut ", ""))
+            if conc:
+                for imp in self.F.impls:
+                    if imp.get("trait") == fn.get("trait") and imp.get("self_ty") == conc:
+                        for it in imp["items"]:
+                            if it["name"] == name and it["def"] in self.F.fns:
+                                res, callee = it["def"], self.F.fns[it["def"]]
         if self.inline and callee is not None and callee.get("thir"):
-            return self.call_fn(res, args)
+            # remember which concrete types the callee's type parameters stand for (from the argument types at this call site)
+            tm = {}
+            params = [q for q in callee["thir"]["params"] if q.get("pat") is not None or q.get("ty")]
+            for q, a in zip(params, e["args"]):
+                pt = (q.get("ty") or "").replace("&mut ", "").replace("&", "").strip()
+                at = (a.get("ty") or "").replace("&mut ", "").replace("&", "").strip()
+                if pt and at and pt.isidentifier() and len(pt) <= 3 and pt != at:
+                    tm[pt] = self._tymap().get(at, at)
+            cg = [int(a) for a in (fn.get("args") or []) if isinstance(a, str) and a.isdigit()]
+            if cg:
+                tm["#const"] = cg
+            self._tystack = getattr(self, "_tystack", []) + [tm]
+            try:
+                return self.call_fn(res, args)
+            finally:
+                self._tystack = self._tystack[:-1]
         # tuple-struct / enum-variant constructor used as a function
         ctor = self._ctor(res, args)
         if ctor is not None:
@@ -829,6 +946,10 @@ class PE:
             r = self._from_dispatch((e["args"][0].get("ty") or "").lstrip("&"), e.get("ty") or "", a0)
             if r is not NotImplemented:
                 return r
+        if name in ("then_some", "then") and len(args) == 2 and isinstance(a0, bool) and d.startswith("core::bool"):
+            if not a0:
+                return NONE
+            return some(args[1] if name == "then_some" else self.apply(args[1], []))
         if name in ("checked_sub", "checked_add", "checked_mul") and len(args) == 2 and all(isinstance(x, int) and not isinstance(x, bool) for x in args):
             bits = INT_BITS.get(e["fn"].get("impl_self") or "", 64)
             v = {"checked_sub": a0 - args[1], "checked_add": a0 + args[1], "checked_mul": a0 * args[1]}[name]
@@ -844,6 +965,10 @@ class PE:
         if name in ("clone", "to_owned", "borrow", "as_ref", "deref", "as_str", "as_bytes", "to_string", "as_slice") and len(args) == 1:
             return a0
         if name == "default" and not args:
+            import re as _re
+            m_ = _re.fullmatch(r"\[(.*); (\d+)\]", e.get("ty") or "")
+            if m_ and int(m_.group(2)) <= 16:
+                return Tup([Sym(("default", m_.group(1)), m_.group(1)) for _ in range(int(m_.group(2)))])
             return Sym(("default", e.get("ty")), e.get("ty"))
         if name == "max_value" and not args:
             bits = INT_BITS.get((e.get("ty") or ""))
@@ -862,6 +987,13 @@ class PE:
                 return some(Adt("nonzero", "NZ", {"0": a0})) if a0.val() != 0 else NONE
         if "NonZero" in d and name == "get" and isinstance(a0, Adt) and a0.adt == "nonzero":
             return a0.fields["0"]
+        if name == "to_be_bytes" and isinstance(a0, Sym):
+            bits = INT_BITS.get(e["fn"].get("impl_self") or "", 0)
+            if bits:
+                n = bits // 8
+                return Tup([Sym(("be", vkey(a0), i, n)) for i in range(n)])     # byte i (most significant first) of an opaque integer
+        if name == "from_be_bytes" and isinstance(a0, Tup) and a0.items and all(isinstance(x, Sym) for x in a0.items):
+            return Sym(("from_be", tuple(vkey(x) for x in a0.items)))
         if name == "to_be_bytes" and isinstance(a0, int):
             bits = INT_BITS.get(e["fn"].get("impl_self") or "", 0)
             if bits:
@@ -893,6 +1025,8 @@ class PE:
         items = a0.items
         if name in ("iter", "into_iter", "copied", "cloned", "as_slice", "by_ref") and len(args) == 1:
             return Adt("seq-iter", "It", {"0": a0})
+        if name == "iter_mut" and len(args) == 1:
+            return Adt("seq-iter", "It", {"0": a0, "mut": True})
         if name == "get" and len(args) == 2 and isinstance(args[1], int) and not is_iter:
             return some(items[args[1]]) if 0 <= args[1] < len(items) else NONE
         if name in ("first", "last") and len(args) == 1 and not is_iter:
